@@ -140,6 +140,7 @@ pub fn gen_straddle_plan(r: &mut Rng, ints_only: bool) -> Plan {
                 end: End::Implicit,
                 ret_err: None,
                 probe_cells: false,
+                pull_params: None,
             }),
         },
         Cmd {
@@ -166,7 +167,10 @@ fn gen_c04(r: &mut Rng, tier: Tier, job: u64) -> Plan {
         1 => 2,
         _ => 3,
     };
-    let d: i64 = if r.chance(1, 4) { 0 } else { r.irange(-6, 6) };
+    // one text job in five leaves the giant row as the last one, written cell by cell and not
+    // ended by the shim (finish()/drop ends it) -- mostly at the exact multiple
+    let open_last = r.chance(1, 5);
+    let d: i64 = if r.chance(1, 4) || (open_last && r.chance(3, 4)) { 0 } else { r.irange(-6, 6) };
     let target = (k * U24) as i64 + d; // logical message length
     let variant = if tier == Tier::Thorough { r.below(12) } else { job % 12 };
     if variant >= 10 {
@@ -211,7 +215,13 @@ fn gen_c04(r: &mut Rng, tier: Tier, job: u64) -> Plan {
                 .collect();
             let mut second = vec![Cell::Null(0); lens.len()];
             second[0] = small_row_text[0].clone();
-            let rows = if r.coin() { vec![big, second] } else { vec![second.clone(), big, second] };
+            // the giant row first, in the middle, or last (then possibly left for finish() /
+            // drop to end: the terminating empty packet of an exact multiple is owed all the same)
+            let rows = match if open_last { 2 } else { r.below(3) } {
+                0 => vec![big, second],
+                1 => vec![second.clone(), big, second],
+                _ => vec![second, big],
+            };
             cmds.push(Cmd {
                 seq: {
                     let c = r.coin();
@@ -222,15 +232,16 @@ fn gen_c04(r: &mut Rng, tier: Tier, job: u64) -> Plan {
                     units: vec![Unit::Rows(RowsUnit {
                         cols,
                         rows,
-                        write_row: r.coin(),
-                        last_row_ended: r.coin(),
-                        close: Close::Finish,
+                        write_row: !open_last && r.coin(),
+                        last_row_ended: !open_last && r.coin(),
+                        close: if r.chance(2, 3) { Close::Finish } else { Close::Drop },
                         contra: None,
                         recover: None,
                     })],
                     end: End::Implicit,
                     ret_err: None,
                     probe_cells: false,
+                    pull_params: None,
                 }),
             });
         }
@@ -306,6 +317,7 @@ fn gen_c04(r: &mut Rng, tier: Tier, job: u64) -> Plan {
                     end: End::Implicit,
                     ret_err: None,
                     probe_cells: false,
+                    pull_params: None,
                 }),
             });
         }
@@ -327,6 +339,7 @@ fn gen_c04(r: &mut Rng, tier: Tier, job: u64) -> Plan {
                     },
                     ret_err: None,
                     probe_cells: false,
+                    pull_params: None,
                 }),
             });
         }
@@ -358,6 +371,7 @@ fn gen_c04(r: &mut Rng, tier: Tier, job: u64) -> Plan {
                     end: End::Implicit,
                     ret_err: None,
                     probe_cells: false,
+                    pull_params: None,
                 }),
             });
         }
@@ -451,6 +465,7 @@ fn gen_c04_tls(r: &mut Rng) -> Plan {
             end: End::Implicit,
             ret_err: None,
             probe_cells: false,
+            pull_params: None,
         };
         if binary {
             let id = 1 + cmds.len() as u32;
@@ -704,13 +719,26 @@ fn ty_range(ty: u8) -> (i128, i128) {
 }
 
 fn c15_plan(cells: Vec<(Cell, u8, bool)>, r: &mut Rng) -> Plan {
+    // signedness is the UNSIGNED flag and nothing else: other flags a column may carry
+    // (ZEROFILL, keys, AUTO_INCREMENT, NUM, ...; not NOT_NULL, rows may hold NULLs) come along
+    // in a third of the runs
+    let extra_pool: [u16; 8] = [0x40, 0x02, 0x04, 0x08, 0x200, 0x1000, 0x4000, 0x8000];
+    let with_extra = r.chance(1, 3);
     let cols: Vec<ColSpec> = cells
         .iter()
-        .map(|(_, ct, u)| ColSpec {
-            table: Blob::lit(b"t"),
-            name: Blob::lit(b"c"),
-            coltype: *ct,
-            flags: if *u { 0x20 } else { 0 },
+        .map(|(_, ct, u)| {
+            let mut flags: u16 = if *u { 0x20 } else { 0 };
+            if with_extra {
+                for _ in 0..1 + r.below(3) {
+                    flags |= *r.pick(&extra_pool);
+                }
+            }
+            ColSpec {
+                table: Blob::lit(b"t"),
+                name: Blob::lit(b"c"),
+                coltype: *ct,
+                flags,
+            }
         })
         .collect();
     let row: Vec<Cell> = cells.into_iter().map(|c| c.0).collect();
@@ -763,6 +791,7 @@ fn c15_plan(cells: Vec<(Cell, u8, bool)>, r: &mut Rng) -> Plan {
                 end: End::Implicit,
                 ret_err: None,
                 probe_cells: true,
+                pull_params: None,
             }),
         },
     ];
